@@ -27,7 +27,7 @@ FS, FC, SC, CE, EYC, PE, RS = (wire.FRAME_SIZE_ERROR, wire.FLOW_CONTROL_ERROR, w
                                wire.REFUSED_STREAM)
 
 STATES = ['fresh', 'open', 'open_resp', 'hc_remote', 'hc_local', 'closed_es', 'closed_es_cleaned',
-          'closed_rst_sent', 'closed_rst_recv']
+          'closed_rst_sent', 'closed_rst_recv', 'pushed_closed_es', 'pushed_closed_es_cleaned']
 
 
 class GoawayMonitor(object):
@@ -213,7 +213,7 @@ def cat():
     # ---- STREAM_CLOSED
     def on_closed_es(build):
         def fn(h, sid, st):
-            if st not in ('closed_es', 'closed_es_cleaned'):
+            if st not in ('closed_es', 'closed_es_cleaned', 'pushed_closed_es', 'pushed_closed_es_cleaned') or sid is None:
                 return None
             return build(h, sid)
         return fn
@@ -451,6 +451,17 @@ def build_state(e_client, state, observer=None, small_window=False, big_window=F
     elif state == 'closed_es_cleaned':
         sid = h.reach('closed_es')
         h.cleanup()
+    elif state in ('pushed_closed_es', 'pushed_closed_es_cleaned'):
+        # a pushed stream (the highest one the server promised) that ended normally; optionally already forgotten
+        if not e_client:
+            return h, None
+        par = h.reach('open')
+        sid = h.peer_next
+        h.peer_next += 2
+        assert h.send(wire.build_push_promise(par, sid, hb(REQ))).ok
+        assert h.send(wire.build_headers(sid, hb(RESP), end_stream=True)).ok
+        if state.endswith('cleaned'):
+            h.cleanup()
     else:
         sid = h.reach(state)
     return h, sid
